@@ -68,8 +68,8 @@ def features(case):
     if c["val"]: f.append("validation_loader")
     if c["ev"]: f.append("evaluator_" + c["ev"])
     if c.get("ev_cb"): f.append("evaluator_metric_callbacks")
-    if c["cb_train"]: f.append("on_train_epoch_callback")
-    if c["cb_val"]: f.append("on_validation_epoch_callback")
+    if c["cb_train"]: f.append("on_train_epoch_callback" + ("_touching_one_submodule" if c["cb_train"] == "child" else ""))
+    if c["cb_val"]: f.append("on_validation_epoch_callback" + ("_touching_one_submodule" if c["cb_val"] == "child" else ""))
     if c["rem"]: f.append("partial_last_batch")
     if c["val_raises"]: f.append("validation_raises")
     return f
@@ -100,13 +100,13 @@ class World:
                 log.append(("forward", tuple(m.training for m in (s, s.l, s.bn, s.do, s.o)), TM.gradient__))
                 return super().__call__(*a, **k)
 
-            def train(s):
+            def train(s, *a, **k):          # signature-agnostic: a torch-style train(mode) must not trip the harness
                 log.append(("train()",))
-                return super().train()
+                return super().train(*a, **k)
 
-            def eval(s):
+            def eval(s, *a, **k):
                 log.append(("eval()",))
-                return super().eval()
+                return super().eval(*a, **k)
 
         class LSGD(optim.SGD):
             def step(s):
@@ -194,9 +194,16 @@ class World:
             Tensor.backward = orig
 
     def cb(self, which):
-        def f(model, loader):      # a callback that leaves the model in the wrong mode for what follows
+        def f(model, loader):      # a callback that leaves the model (or only ONE submodule of it) in the wrong mode for what follows
             self.log.append(("cb", which))
-            nn.Module.eval(model) if which == "train" else nn.Module.train(model)
+            if which == "train":
+                nn.Module.eval(model)
+            elif which == "val":
+                nn.Module.train(model)
+            elif which == "train-child":
+                model.do.eval()         # the root still reports training mode
+            else:
+                model.do.train()        # the root still reports eval mode
         return f
 
 
@@ -219,7 +226,8 @@ def run_fit(case, seed=0):
     try:
         with w.observed():
             hist = w.trainer.fit(w.train_loader, c["epochs"], w.val_loader,
-                                 on_train_epoch=w.cb("train") if c["cb_train"] else None, on_validation_epoch=w.cb("val") if c["cb_val"] else None)
+                                 on_train_epoch=w.cb("train-child" if c["cb_train"] == "child" else "train") if c["cb_train"] else None,
+                                 on_validation_epoch=w.cb("val-child" if c["cb_val"] == "child" else "val") if c["cb_val"] else None)
     except Exception as e:
         exc = e
     g_after = TM.gradient__
